@@ -1262,6 +1262,14 @@ func TestVerifC11(t *testing.T) {
 		}
 		inputs = append(inputs, vinput{id: fmt.Sprintf("dots%d", i), data: []byte(strings.Join(ws, ""))})
 	}
+	// hyphenated line breaks: texts that have them (a joined word ending its line, a word split
+	// twice) and texts with every long word split, plain and indented
+	for i, d := range vnamed("License/W3C/license.txt", "License/MIT/a.txt", "License/BSD-3-Clause/a.txt", "License/ISC/license.txt") {
+		inputs = append(inputs, vinput{id: fmt.Sprintf("hy%d", i), data: d.data},
+			vinput{id: fmt.Sprintf("hyd%d", i), data: vdenseHyphen(d.data, 3, "")},
+			vinput{id: fmt.Sprintf("hyi%d", i), data: vdenseHyphen(vdenseHyphen(d.data, 3, "   "), 2, "")})
+	}
+	inputs = append(inputs, vinput{id: "hyfirst", data: append([]byte("(-\n) see the\nCopyright 20-\n20 Foo\n"), vnamed("License/MIT/a.txt")[0].data...)})
 	// list markers in upper and mixed case at line starts ("II.", "IV:", "A.", "Iii.")
 	for i, d := range vnamed("License/MIT/a.txt", "License/BSD-3-Clause/a.txt", "License/NPL-1.1/license.txt", "License/Zlib/license.txt") {
 		mk := []string{"II.", "IV:", "A.", "III.", "iv.", "Vi.", "B.", "XI.", "ii."}
